@@ -931,7 +931,9 @@ func runC03(o *Out, r *Rng, tier string) {
 		}
 	}
 	// moderately deep nesting: must simply return (the model's fuel bound is linear in the input)
-	for _, n := range []int{50, 400} {
+	// … and nesting around the scanners' limit (MaxParseDepth = 1000 once D03 is repaired): one below, at, and
+	// one and two above, where the error position must be the bracket that goes too deep
+	for _, n := range []int{50, 400, 999, 1000, 1001, 1002, 3000} {
 		cases = append(cases, c03Parse("val", "eof", []byte(c03Deep("[", "]", n)), "nested"))
 		cases = append(cases, c03Parse("val", "eof", []byte(strings.Repeat("{a:", n)+"1"+strings.Repeat("}", n)), "nested"))
 		cases = append(cases, c03Parse("exe", "eof", []byte(strings.Repeat("{a", n)+strings.Repeat("}", n)), "nested"))
@@ -962,6 +964,14 @@ func runC03(o *Out, r *Rng, tier string) {
 		"directive @d(a: Int @dep, b: Int @dep) on OBJECT\ndirective @dep on ARGUMENT_DEFINITION"}
 	for _, l := range loads {
 		cases = append(cases, c03Entry("load", l, "", "", "fixed-load"))
+	}
+	// very deep nesting through the public entry points: must return (an error), not exhaust the stack (D03)
+	for _, n := range []int{100000, 4000000} {
+		cases = append(cases, c03Entry("value", strings.Repeat("[", n), "", "", "very-deep"))
+		cases = append(cases, c03Entry("value", strings.Repeat("{a:", n), "", "", "very-deep"))
+		cases = append(cases, c03Entry("load", "type Query { a: "+strings.Repeat("[", n)+"Int }", "", "", "very-deep"))
+		cases = append(cases, c03Entry("resolve", "reflect", strings.Repeat("{o", n), "{}", "very-deep"))
+		cases = append(cases, c03Entry("resolve", "iface", "{a(x: "+strings.Repeat("[", n)+")}", "{}", "very-deep"))
 	}
 	for _, sc := range []string{"fresh", "fresh-nilobj", "zero", "addtypes", "addtypes-then-load", "failed-load-only", "enum-then-query",
 		"extend-schema-fresh", "extend-schema-dir-fresh", "extend-schema-implied"} {
